@@ -81,13 +81,15 @@ fn family(thorough: bool) -> Vec<(String, GraphSpec)> {
     let mut out = vec![];
     let mut all: Vec<(String, u8, Vec<Op>)> = shapes().into_iter().map(|(n, k, o)| (n.to_string(), k, o)).collect();
     if thorough {
-        // every valid history of length <= 2 on two node slots (insertions, removals, renewals)
-        let alpha = alphabet(2, 1, true);
-        for_each_history(&alpha, &[], 2, &mut |h| {
-            if !h.is_empty() {
-                all.push((format!("history:{}", h.iter().map(|o| o.text()).collect::<Vec<_>>().join(",")), 2, h.to_vec()));
-            }
-        });
+        // every valid history (insertions, removals, renewals) of length <= 3 on two and <= 2 on three node slots
+        for (slots, depth) in [(2u8, 3usize), (3, 2)] {
+            let alpha = alphabet(slots, depth as u8 - 1, true);
+            for_each_history(&alpha, &[], depth, &mut |h| {
+                if !h.is_empty() {
+                    all.push((format!("history{slots}:{}", h.iter().map(|o| o.text()).collect::<Vec<_>>().join(",")), slots, h.to_vec()));
+                }
+            });
+        }
     }
     for (name, nodes, ops) in all {
         for p in 0..PATTERNS {
@@ -426,7 +428,7 @@ pub fn replay(args: &Args, path: &str) -> i32 {
     report.set("evaluations", json!(1));
     report.set("distinct_nontrivial", json!(0));
     report.set("rule", json!("replay of one stored case"));
-    report.finish()
+    finish_replay(&report)
 }
 
 pub fn run(args: &Args) -> i32 {
@@ -495,9 +497,10 @@ pub fn run(args: &Args) -> i32 {
     }
     report.set("evaluations", json!(searches.load(AO::SeqCst)));
     report.set("distinct_nontrivial", json!(nontrivial.len()));
-    report.set("rule", json!("graph family (8 shapes [thorough: + every history of length <= 2 on two node slots] x 3 property patterns) x every search kind and origin (bfs/dfs from/to every element, path between every ordered pair of nodes, elements) x 4 condition variants x 15 order_by lists x every (offset, limit) in ([0..n+3] + {2^64-2, 2^64-1})^2; one evaluation = one search on the real Db. distinct_nontrivial = distinct (graph, unsliced result sequence) with at least 2 elements"));
+    report.set("rule", json!("graph family (8 shapes [thorough: + every history of length <= 3 on two and <= 2 on three node slots] x 3 property patterns) x every search kind and origin (bfs/dfs from/to every element, path between every ordered pair of nodes, elements) x 4 condition variants x 15 order_by lists x every (offset, limit) in ([0..n+3] + {2^64-2, 2^64-1})^2; one evaluation = one search on the real Db. distinct_nontrivial = distinct (graph, unsliced result sequence) with at least 2 elements"));
     report.set("exhaustive", json!(true));
-    report.set("graphs", json!(fam.iter().map(|f| f.0.clone()).collect::<Vec<_>>()));
+    report.set("graphs", json!(fam.len()));
+    report.set("graph_names", json!(fam.iter().map(|f| f.0.clone()).take(40).collect::<Vec<_>>()));
     report.set("condition_variants", json!(conds.iter().map(|c| c.0).collect::<Vec<_>>()));
     report.set("order_by_lists", json!(orders.iter().map(|o| order_text(o)).collect::<Vec<_>>()));
     report.set("search_groups", json!(groups.load(AO::SeqCst)));
